@@ -17,6 +17,7 @@ import ALV.Lemmas.C13Euler
 import ALV.Lemmas.C13Comb
 import ALV.Lemmas.C13Contract
 import ALV.Lemmas.C13Hist
+import ALV.Lemmas.C13Call
 import Mathlib.Analysis.SpecialFunctions.Trigonometric.Inverse
 import Mathlib.Analysis.SpecialFunctions.Trigonometric.Bounds
 import ALV.Common.Audit
@@ -1101,6 +1102,329 @@ example : ∀ v1 ∈ parVals [(⟨.ctrl, [1]⟩ : Src ℝ)] [HOp.set 0 (3 / 2), 
   have h1' : v1 = 1 ∨ v1 = 3 / 2 := by simpa [parVals, setVal, emptySrc] using h1
   have := Real.two_le_pi
   rcases h1' with h | h <;> subst h <;> exact ⟨by norm_num, by linarith⟩
+
+/-! ### 12. erb, gammatone_erb_constants, the time-domain run the driver evaluates, calls with omitted parameters
+
+`ALV/Model/C13Call.lean`: `erb` / `erbCall` (the `Hz=None` branch with its `freq < 7` refusal),
+`lowpassCall` … `gammatoneSampledCall` (default strategies, omitted `alpha` / `tau` / `phase` / `eta`),
+`runFilter` / `runCascade` (what the driver runs for the entries `comb`, `combhist`, `run`). -/
+
+/-- **C13.12a** the ERB formulas in closed form, for a frequency `f` and the unit `Hz ≠ 0` (both in
+rad/sample; `Hz = 1`: both in hertz): Glasberg & Moore 1990 `24.7·(4.37·f/1000 + 1)` Hz, Moore &
+Glasberg 1983 `6.23·(f/1000)² + 93.39·(f/1000) + 28.52` Hz. -/
+theorem erb_closed_forms (f Hz : ℝ) (h : Hz ≠ 0) :
+    erb .gm90 f Hz = (247 / 10) * ((437 / 100000) * f + Hz) ∧
+    erb .mg83 f Hz = (623 / 100000000) * f ^ 2 / Hz + (9339 / 100000) * f + (2852 / 100) * Hz ∧
+    erb .gm90 f 1 = (247 / 10) * ((437 / 100) * (f / 1000) + 1) ∧
+    erb .mg83 f 1 = (623 / 100) * (f / 1000) ^ 2 + (9339 / 100) * (f / 1000) + 2852 / 100 := by
+  refine ⟨?_, ?_, ?_, ?_⟩
+  · show erbGm90 f Hz = _
+    rw [erbGm90_real]; field_simp
+  · show erbMg83 f Hz = _
+    rw [erbMg83_real]; field_simp
+  · show erbGm90 f 1 = _
+    rw [erbGm90_real]; ring
+  · show erbMg83 f 1 = _
+    rw [erbMg83_real]; ring
+
+/-- **C13.12b** units ("in rad/sample if second parameter is given, in Hz otherwise"): the bandwidth in
+rad/sample of a frequency given in rad/sample is the hertz formula applied to `f` hertz, times `Hz`. -/
+theorem erb_units (st : ErbStrategy) (f Hz : ℝ) (h : Hz ≠ 0) :
+    erb st (f * Hz) Hz = erb st f 1 * Hz := by
+  cases st
+  · show erbGm90 _ _ = erbGm90 _ _ * _
+    rw [erbGm90_real, erbGm90_real]; field_simp
+  · show erbMg83 _ _ = erbMg83 _ _ * _
+    rw [erbMg83_real, erbMg83_real]; field_simp
+
+/-- **C13.12c** both ERB models are positive and strictly increasing in the frequency (`f ≥ 0`,
+unit `Hz > 0`). -/
+theorem erb_pos_strictMono (st : ErbStrategy) (Hz : ℝ) (hHz : 0 < Hz) :
+    (∀ f : ℝ, 0 ≤ f → 0 < erb st f Hz) ∧ StrictMonoOn (fun f => erb st f Hz) (Set.Ici 0) := by
+  have hne := hHz.ne'
+  cases st
+  · refine ⟨fun f hf => ?_, fun f _ g _ hfg => ?_⟩
+    · rw [(erb_closed_forms f Hz hne).1]; nlinarith
+    · show erb .gm90 f Hz < erb .gm90 g Hz
+      rw [(erb_closed_forms f Hz hne).1, (erb_closed_forms g Hz hne).1]; nlinarith
+  · refine ⟨fun f hf => ?_, fun f hf g _ hfg => ?_⟩
+    · rw [(erb_closed_forms f Hz hne).2.1]
+      have : 0 ≤ 623 / 100000000 * f ^ 2 / Hz := by positivity
+      nlinarith
+    · show erb .mg83 f Hz < erb .mg83 g Hz
+      rw [(erb_closed_forms f Hz hne).2.1, (erb_closed_forms g Hz hne).2.1]
+      have hf' : (0 : ℝ) ≤ f := hf
+      have hsq : f ^ 2 ≤ g ^ 2 := by nlinarith
+      have hsq' : 623 / 100000000 * f ^ 2 ≤ 623 / 100000000 * g ^ 2 := by nlinarith
+      have := div_le_div_of_nonneg_right hsq' hHz.le
+      nlinarith
+
+/-- **C13.12d** the call `erb[st](freq, Hz=None)` (`st` omitted: `gm90`): without `Hz` a frequency below
+7 is refused (`ValueError`: "perhaps user tried something up to 2π"), from 7 on the unit is 1 (hertz
+in, hertz out); with `Hz` the formula, whatever the frequency. -/
+theorem erb_call (st : Option ErbStrategy) (f : ℝ) :
+    (f < 7 → erbCall st f none = .error ()) ∧
+    (7 ≤ f → erbCall st f none = .ok (erb (st.getD .gm90) f 1)) ∧
+    (∀ hz : ℝ, erbCall st f (some hz) = .ok (erb (st.getD .gm90) f hz)) := by
+  refine ⟨fun h => ?_, fun h => ?_, fun hz => rfl⟩
+  · simp [erbCall, h]
+  · simp [erbCall, not_lt.2 h]
+
+/-- **C13.12e** `gammatone_erb_constants(n) = (x, y)` for an order `n ≥ 1`:
+`x = (n-1)!²·4^{n-1} / (π·(2n-2)!)` — the reciprocal `1/a_n` of Holdsworth's
+`a_n = π·(2n-2)!·2^{-(2n-2)} / (n-1)!²` —, `y = c_n = 2·√(2^{1/n} - 1)`, both positive, and `y` is the
+3 dB constant: `(1 + (y/2)²)^n = 2` (the `n`-th order gammatone magnitude `(1 + (Δ/b)²)^{-n/2}` has
+half power at `Δ = b·y/2`). -/
+theorem gammatone_erb_constants_closed_form (n : ℕ) (hn : 1 ≤ n) :
+    (gammatoneErbConstants n : ℝ × ℝ).1
+      = ((n - 1).factorial : ℝ) ^ 2 * 4 ^ (n - 1) / (Real.pi * ((2 * (n - 1)).factorial : ℝ)) ∧
+    (gammatoneErbConstants n : ℝ × ℝ).1
+      * (Real.pi * ((2 * (n - 1)).factorial : ℝ) / (4 ^ (n - 1) * ((n - 1).factorial : ℝ) ^ 2)) = 1 ∧
+    0 < (gammatoneErbConstants n : ℝ × ℝ).1 ∧
+    (gammatoneErbConstants n : ℝ × ℝ).2 = 2 * Real.sqrt ((2 : ℝ) ^ ((1 : ℝ) / n) - 1) ∧
+    0 < (gammatoneErbConstants n : ℝ × ℝ).2 ∧
+    (1 + ((gammatoneErbConstants n : ℝ × ℝ).2 / 2) ^ 2) ^ n = 2 := by
+  have hpi := Real.pi_pos
+  have hf1 : (0 : ℝ) < ((n - 1).factorial : ℝ) := by exact_mod_cast Nat.factorial_pos _
+  have hf2 : (0 : ℝ) < ((2 * (n - 1)).factorial : ℝ) := by exact_mod_cast Nat.factorial_pos _
+  have h4 : (0 : ℝ) < 4 ^ (n - 1) := by positivity
+  have hn0 : n ≠ 0 := by omega
+  have hnR : (0 : ℝ) < n := by exact_mod_cast hn
+  have hgt : (1 : ℝ) < (2 : ℝ) ^ ((1 : ℝ) / n) :=
+    Real.one_lt_rpow (by norm_num) (by positivity)
+  refine ⟨erbConst_fst n, ?_, ?_, erbConst_snd n, ?_, ?_⟩
+  · rw [erbConst_fst]; field_simp
+  · rw [erbConst_fst]; positivity
+  · rw [erbConst_snd]
+    have : 0 < Real.sqrt ((2 : ℝ) ^ ((1 : ℝ) / n) - 1) := Real.sqrt_pos.2 (by linarith)
+    linarith
+  · rw [erbConst_snd]
+    have hs : (2 * Real.sqrt ((2 : ℝ) ^ ((1 : ℝ) / n) - 1) / 2) ^ 2 = (2 : ℝ) ^ ((1 : ℝ) / n) - 1 := by
+      rw [mul_div_cancel_left₀ _ (two_ne_zero), Real.sq_sqrt (by linarith)]
+    rw [hs, add_sub_cancel, one_div]
+    exact Real.rpow_inv_natCast_pow (by norm_num) hn0
+
+/-- **C13.12f** the time-domain run the driver evaluates against `filt(signal)` — `runFilter`, the
+difference-equation solver `C04.fspec` on the designed coefficient lists, zero memory — is, for the
+comb designs, the recursion of the docstrings, and it is the generated filter loop of the C04 model
+(whose correspondence with the real `exec`-generated loop is property C04's tie). -/
+theorem comb_run_eq_spec (d : ℕ) (α : ℝ) (xs : List ℝ) :
+    runFilter (combFb (d + 1) α) xs = combFbSpec (d + 1) α xs ∧
+    runFilter (combFf (d + 1) α) xs = combFfSpec (d + 1) α xs ∧
+    runFilter (combFb (d + 1) α) xs
+      = C04.evalIR (C04.compile (combFb (d + 1) α).num (combFb (d + 1) α).den 0)
+          (List.replicate (combFb (d + 1) α).den.tail.length 0) 0 xs ∧
+    runFilter (combFf (d + 1) α) xs
+      = C04.evalIR (C04.compile (combFf (d + 1) α).num (combFf (d + 1) α).den 0) [] 0 xs := by
+  refine ⟨runFilter_combFb d α xs, runFilter_combFf d α xs, ?_, ?_⟩
+  · rw [runFilter_combFb]; exact (comb_fb_eq_spec d α xs).symm
+  · rw [runFilter_combFf]; exact (comb_ff_eq_spec d α xs).symm
+
+/-- **C13.12g** `comb.fb` in the time domain, pointwise: one output per input, and for EVERY input and
+EVERY `n`:  `y[n] = x[n] + α·y[n - D]`, where the delayed term is 0 for `n < D`. -/
+theorem comb_fb_run_difference_equation (d : ℕ) (α : ℝ) (xs : List ℝ) :
+    (runFilter (combFb (d + 1) α) xs).length = xs.length ∧
+    ∀ n : ℕ, n < xs.length →
+      (runFilter (combFb (d + 1) α) xs).getD n 0
+        = xs.getD n 0 + α * (if n < d + 1 then 0
+                             else (runFilter (combFb (d + 1) α) xs).getD (n - (d + 1)) 0) := by
+  rw [(comb_run_eq_spec d α xs).2.2.1]
+  obtain ⟨hl, he⟩ := comb_fb_difference_equation d α
+    (List.replicate (combFb (d + 1) α).den.tail.length 0) xs (by simp)
+  refine ⟨hl, fun n hn => ?_⟩
+  have := he n hn
+  rw [yAt_zero_mem, yAt_zero_mem] at this
+  have h1 : ¬ ((n : ℤ) < 0) := by omega
+  simp only [C04.xAt, if_neg h1, Int.toNat_natCast] at this
+  rw [this]
+  by_cases h : n < d + 1
+  · have h2 : (n : ℤ) - ((d : ℤ) + 1) < 0 := by omega
+    rw [if_pos h2, if_pos h]
+  · have h2 : ¬ ((n : ℤ) - ((d : ℤ) + 1) < 0) := by omega
+    have h3 : ((n : ℤ) - ((d : ℤ) + 1)).toNat = n - (d + 1) := by omega
+    rw [if_neg h2, if_neg h, h3]
+
+/-- **C13.12h** `comb.ff` in the time domain, pointwise:  `y[n] = x[n] + α·x[n - D]`, the delayed term
+being 0 for `n < D`. -/
+theorem comb_ff_run_difference_equation (d : ℕ) (α : ℝ) (xs : List ℝ) :
+    (runFilter (combFf (d + 1) α) xs).length = xs.length ∧
+    ∀ n : ℕ, n < xs.length →
+      (runFilter (combFf (d + 1) α) xs).getD n 0
+        = xs.getD n 0 + α * (if n < d + 1 then 0 else xs.getD (n - (d + 1)) 0) := by
+  rw [(comb_run_eq_spec d α xs).2.2.2]
+  obtain ⟨hl, he⟩ := comb_ff_difference_equation d α xs
+  refine ⟨hl, fun n hn => ?_⟩
+  have := he n hn
+  have h1 : ¬ ((n : ℤ) < 0) := by omega
+  simp only [C04.xAt, C04.yAt, if_neg h1, Int.toNat_natCast] at this
+  rw [this]
+  by_cases h : n < d + 1
+  · have h2 : (n : ℤ) - ((d : ℤ) + 1) < 0 := by omega
+    rw [if_pos h2, if_pos h]
+  · have h2 : ¬ ((n : ℤ) - ((d : ℤ) + 1) < 0) := by omega
+    have h3 : ((n : ℤ) - ((d : ℤ) + 1)).toNat = n - (d + 1) := by omega
+    rw [if_neg h2, if_neg h, h3]
+
+/-- **C13.12i** every section of a designed cascade, run in the time domain by `runFilter`, satisfies
+the difference equation of its own coefficient lists (any design whose denominator starts with a
+non-zero coefficient: every design of this property starts with 1). -/
+theorem run_section_difference_equation (s : Coefs ℝ) (a0 : ℝ) (as xs : List ℝ)
+    (hden : s.den = a0 :: as) (ha0 : a0 ≠ 0) :
+    C04.DiffEq s.num a0 as 0 (List.replicate as.length 0) xs (runFilter s xs) := by
+  simp only [runFilter, hden]
+  exact C04.fspec_diffeq s.num as a0 0 _ xs ha0 (by simp)
+
+/-- **C13.12j** what the caller's parameter objects yield after a history, as the driver returns it
+(`histFinal`, all objects at once) = the state-free `callerSpec`. -/
+theorem hist_final_eq_spec {α : Type} [TrigField α] [ZeroTest α] (srcs : List (Src α))
+    (dsgs : List (Dsg α)) (ops : List (HOp α)) (n : ℕ) :
+    histFinal srcs dsgs ops n
+      = (List.range srcs.length).map fun i => callerSpec srcs dsgs ops.reverse i n := by
+  unfold histFinal
+  simp only [(hist_caller_objects srcs dsgs ops).2]
+
+/-- **C13.12k** the calls with omitted parameters are the full calls with the documented defaults:
+`lowpass(c) = lowpass.pole(c)`, `highpass(c) = highpass.z(c)`, `resonator(f, bw) = resonator.poles_exp`,
+`comb(D, p) = comb.fb(D, p)`, omitted `alpha` = 1, omitted `tau` = "alpha = 1",
+`gammatone(f, bw) = gammatone.sampled(f, bw, phase=0, eta=4)`. -/
+theorem calls_with_omitted_parameters (c f bw p φ : ℝ) (D eta : ℕ) :
+    lowpassCall none c = lowpass .pole c ∧ highpassCall none c = highpass .z c ∧
+    resonatorCall none f bw = resonator .polesExp f bw ∧
+    combCall none D (some p) = combFb D p ∧ combCall none D none = combFb D (1 : ℝ) ∧
+    combCall (some .fb) D none = combFb D (1 : ℝ) ∧ combCall (some .ff) D none = combFf D (1 : ℝ) ∧
+    combCall (some .tau) D none = combFb D (1 : ℝ) ∧ combCall (some .tau) D (some p) = combTau D p ∧
+    gammatoneSampledCall f bw none none = gammatoneSampled f bw 0 4 ∧
+    gammatoneSampledCall f bw (some φ) none = gammatoneSampled f bw φ 4 ∧
+    gammatoneSampledCall f bw none (some eta) = gammatoneSampled f bw 0 eta := by
+  simp [lowpassCall, highpassCall, resonatorCall, combCall, gammatoneSampledCall, c1_real, c0_real]
+
+/-- **C13.12l** the default calls meet the contracts of the property: `lowpass(c)` / `highpass(c)` their
+records (unit gain at DC resp. Nyquist, half power at the cut-off, monotone, stable),
+`resonator(f, bw)` unit gain at `f` and pole radius `e^{-bw/2}`, `gammatone(f, bw)` four sections of
+unit gain at `f` with poles of modulus `e^{-bw} < 1`, and `comb(D)` / `comb.fb(D)` / `comb.tau(D)` /
+`comb.ff(D)` realise `y[n] = x[n] + y[n-D]` resp. `x[n] + x[n-D]`. -/
+theorem default_calls_meet_contracts (c f bw : ℝ) (h0 : 0 < c) (h1 : c < Real.pi) (hf0 : 0 < f)
+    (hf1 : f < Real.pi) (hbw : 0 < bw) (d : ℕ) (xs : List ℝ) :
+    Meets (lowpassCall none c) (lowpassSpec .pole c) ∧
+    Meets (highpassCall none c) (highpassSpec .z c) ∧
+    Meets (resonatorCall none f bw) (resonatorSpec .polesExp f bw) ∧
+    ((gammatoneSampledCall f bw none none).length = 4 ∧
+      ∀ s ∈ gammatoneSampledCall f bw none none, Meets s (gammatoneSectionContract f bw true)) ∧
+    runFilter (combCall none (d + 1) none) xs = combFbSpec (d + 1) 1 xs ∧
+    runFilter (combCall (some .fb) (d + 1) none) xs = combFbSpec (d + 1) 1 xs ∧
+    runFilter (combCall (some .tau) (d + 1) none) xs = combFbSpec (d + 1) 1 xs ∧
+    runFilter (combCall (some .ff) (d + 1) none) xs = combFfSpec (d + 1) 1 xs := by
+  have hc := calls_with_omitted_parameters c f bw 0 0 (d + 1) 0
+  refine ⟨lowpass_meets_contract .pole c h0 h1, highpass_meets_contract .z c h0 h1,
+    resonator_meets_contract .polesExp f bw hf0 hf1 hbw (fun h => by cases h), ⟨?_, ?_⟩, ?_, ?_, ?_, ?_⟩
+  · rw [hc.2.2.2.2.2.2.2.2.2.1]
+    exact (gammatone_sampled_all_sections f bw 0 4 hf0 hf1 hbw).1
+  · rw [hc.2.2.2.2.2.2.2.2.2.1]
+    exact (gammatone_meets_contract f bw hf0 hf1 hbw).2.1 0 4
+  · rw [hc.2.2.2.2.1]; exact runFilter_combFb d 1 xs
+  · rw [hc.2.2.2.2.2.1]; exact runFilter_combFb d 1 xs
+  · rw [hc.2.2.2.2.2.2.2.1]; exact runFilter_combFb d 1 xs
+  · rw [hc.2.2.2.2.2.2.1]; exact runFilter_combFf d 1 xs
+
+/-- **C13.12m** "tau defaults to inf, which means alpha = 1": `alpha = e^{-D/τ} → 1` as `τ → ∞`. -/
+theorem comb_tau_infinite (D : ℕ) :
+    Filter.Tendsto (fun τ : ℝ => tauAlpha D τ) Filter.atTop (nhds 1) := by
+  have h : (fun τ : ℝ => tauAlpha D τ) = fun τ : ℝ => Real.exp (-(D : ℝ) / τ) := by
+    funext τ
+    simp only [tauAlpha, TrigField.real_pow, TrigField.real_exp, c1_real, TrigField.real_ofNat,
+      Real.exp_one_rpow]
+  rw [h]
+  have h0 : Filter.Tendsto (fun τ : ℝ => -(D : ℝ) / τ) Filter.atTop (nhds 0) :=
+    Filter.Tendsto.div_atTop tendsto_const_nhds Filter.tendsto_id
+  have := (Real.continuous_exp.tendsto 0).comp h0
+  simpa [Function.comp_def] using this
+
+/-- **C13.12n** `erb` is elementwise in the frequency: over a list / tuple the result is the list of the
+single calls when every item is accepted (always, when `Hz` is given) and the `ValueError` of the first
+refused item otherwise; a Stream / generator yields the single calls item by item up to the first refusal. -/
+theorem erb_elementwise (st : Option ErbStrategy) (fs : List ℝ) :
+    (∀ hz : ℝ, erbCallList st fs (some hz) = .ok (fs.map fun f => erb (st.getD .gm90) f hz)) ∧
+    ((∀ f ∈ fs, 7 ≤ f) → erbCallList st fs none = .ok (fs.map fun f => erb (st.getD .gm90) f 1)) ∧
+    ((∃ f ∈ fs, f < 7) → erbCallList st fs none = .error ()) ∧
+    (∀ hz : Option ℝ, ∀ k, k < (erbCallLazy st fs hz).length →
+        (erbCallLazy st fs hz)[k]? = some (erbCall st (fs.getD k 0) hz)) := by
+  refine ⟨fun hz => ?_, fun h => ?_, fun h => ?_, fun hz => ?_⟩
+  · induction fs with
+    | nil => rfl
+    | cons f fs ih => simp [erbCallList, (erb_call st f).2.2 hz, ih]
+  · induction fs with
+    | nil => rfl
+    | cons f fs ih =>
+      have h7 := h f (by simp)
+      simp [erbCallList, (erb_call st f).2.1 h7, ih (fun g hg => h g (by simp [hg]))]
+  · induction fs with
+    | nil => obtain ⟨f, hf, _⟩ := h; cases hf
+    | cons f fs ih =>
+      by_cases h7 : f < 7
+      · simp [erbCallList, (erb_call st f).1 h7]
+      · obtain ⟨g, hg, hg7⟩ := h
+        have hg' : g ∈ fs := by
+          rcases List.mem_cons.1 hg with h' | h'
+          · exact absurd (h' ▸ hg7) h7
+          · exact h'
+        simp [erbCallList, (erb_call st f).2.1 (not_lt.1 h7), ih ⟨g, hg', hg7⟩]
+  · induction fs with
+    | nil => intro k hk; simp [erbCallLazy] at hk
+    | cons f fs ih =>
+      intro k hk
+      cases hr : erbCall st f hz with
+      | error e =>
+        simp only [erbCallLazy, hr, List.length_singleton] at hk ⊢
+        have : k = 0 := by omega
+        subst this; simp [hr]
+      | ok v =>
+        simp only [erbCallLazy, hr, List.length_cons] at hk ⊢
+        cases k with
+        | zero => simp [hr]
+        | succ k => simpa using ih k (by omega)
+
+/-- **C13.12o** a cascade in the time domain (`runCascade`, what the driver evaluates for the entry `run`):
+section after section, each on the output of the one before; every section gives one output per input. -/
+theorem run_cascade_sections (s : Coefs ℝ) (ss : List (Coefs ℝ)) (xs : List ℝ) :
+    runCascade [] xs = xs ∧ runCascade (s :: ss) xs = runCascade ss (runFilter s xs) ∧
+    (s.den ≠ [] → (runFilter s xs).length = xs.length) ∧
+    ((∀ t ∈ s :: ss, t.den ≠ []) → (runCascade (s :: ss) xs).length = xs.length) := by
+  have hlen : ∀ (t : Coefs ℝ) (ys : List ℝ), t.den ≠ [] → (runFilter t ys).length = ys.length := by
+    intro t ys ht
+    unfold runFilter
+    cases hd : t.den with
+    | nil => exact absurd hd ht
+    | cons a0 as => exact C04.fspec_length _ _ _ _ _ _ _
+  refine ⟨rfl, rfl, hlen s xs, ?_⟩
+  generalize s :: ss = l
+  induction l generalizing xs with
+  | nil => intro _; rfl
+  | cons t l ih =>
+    intro h
+    show (runCascade l (runFilter t xs)).length = xs.length
+    rw [ih (runFilter t xs) (fun u hu => h u (by simp [hu])), hlen t xs (h t (by simp))]
+
+-- 12a: the documented doctest value erb["moore_glasberg_83"](1000) = 128.14, and gm90(1000) = 132.639
+example : erb .mg83 (1000 : ℝ) 1 = 12814 / 100 ∧ erb .gm90 (1000 : ℝ) 1 = 132639 / 1000 := by
+  constructor
+  · rw [(erb_closed_forms 1000 1 one_ne_zero).2.2.2]; norm_num
+  · rw [(erb_closed_forms 1000 1 one_ne_zero).2.2.1]; norm_num
+-- 12d: 1000 Hz is accepted without a unit, 2π is refused
+example : erbCall none (1000 : ℝ) none = .ok (132639 / 1000) ∧ erbCall none (6 : ℝ) none = .error () := by
+  constructor
+  · rw [(erb_call none 1000).2.1 (by norm_num)]
+    show Except.ok (erb .gm90 (1000 : ℝ) 1) = _
+    rw [(erb_closed_forms 1000 1 one_ne_zero).2.2.1]; norm_num
+  · exact (erb_call none 6).1 (by norm_num)
+-- 12e: the order used in practice, n = 4: x = 16/(5π) (≈ 1.019, the doctest), and n = 1: (1/π, 2)
+example : (gammatoneErbConstants 4 : ℝ × ℝ).1 = 16 / (5 * Real.pi) := by
+  rw [(gammatone_erb_constants_closed_form 4 (by norm_num)).1]
+  have := Real.pi_pos
+  norm_num [Nat.factorial]
+  field_simp
+  ring
+-- 12g / 12h: delay 3, alpha 1/2, a 5-sample signal: n = 4 ≥ 3 and n = 1 < 3 are both instances
+example : (4 : ℕ) < ([1, 2, 3, 4, 5] : List ℝ).length ∧ ¬ (4 < 2 + 1) ∧ (1 : ℕ) < 2 + 1 := by simp
 
 end ALV.Props.C13
 
